@@ -163,6 +163,30 @@ func Nullable(t *rapid.T) *Spec {
 		}
 		s.Rules = append(s.Rules, Rule{LHS: lhs, RHS: rhs, Prec: -1})
 	}
+	// nonterminals that are nullable only through other nullable nonterminals
+	nc := rapid.IntRange(0, 2).Draw(t, "ncomposite")
+	for i := 0; i < nc; i++ {
+		l := rapid.IntRange(1, 3).Draw(t, "clen")
+		rhs := make([]int, l)
+		for j := range rhs {
+			rhs[j] = nt + rapid.IntRange(0, nn-1).Draw(t, "cnt")
+		}
+		s.Rules = append(s.Rules, Rule{LHS: rapid.IntRange(0, nn-1).Draw(t, "clhs"), RHS: rhs, Prec: -1})
+	}
+	// the order of the rules in the file must not matter for nullability:
+	// often put the empty rules after their uses
+	if rapid.Bool().Draw(t, "shuffle") {
+		perm := rapid.Permutation(seq(len(s.Rules))).Draw(t, "nperm")
+		rules := make([]Rule, len(s.Rules))
+		for i, p := range perm {
+			rules[i] = s.Rules[p]
+		}
+		s.Rules = rules
+	} else if rapid.Bool().Draw(t, "reverse") {
+		for i, j := 0, len(s.Rules)-1; i < j; i, j = i+1, j-1 {
+			s.Rules[i], s.Rules[j] = s.Rules[j], s.Rules[i]
+		}
+	}
 	s.Start = rapid.IntRange(0, nn-1).Draw(t, "start")
 	return s
 }
@@ -211,6 +235,9 @@ var textbook = []tb{
 		[][]string{{"S", "I", "O", "x"}, {"S", "J", "y"}, {"I", "b"}, {"J", "b"}, {"O"}, {"O", "b"}}},
 	{"decl-vs-expr", []string{"i", "n", ";", "="}, []string{"P", "D", "E", "T", "V", "N"},
 		[][]string{{"P", "D"}, {"P", "E"}, {"D", "T", "N", ";"}, {"E", "V", ";"}, {"E", "V", "=", "V", ";"}, {"T", "i"}, {"V", "i"}, {"N", "n"}}},
+	// T is nullable only through X and Y, which are defined after it
+	{"nullable-through-later-rules", []string{"a", "b", "p", "x", "y"}, []string{"S", "P", "T", "X", "Y"},
+		[][]string{{"S", "a", "P", "T", "b"}, {"P", "p"}, {"T", "X", "Y"}, {"X"}, {"X", "x"}, {"Y"}, {"Y", "y"}}},
 	{"dangling-else", []string{"i", "e", "x"}, []string{"S"},
 		[][]string{{"S", "i", "S"}, {"S", "i", "S", "e", "S"}, {"S", "x"}}},
 	{"ambiguous-expr", []string{"+", "*", "n"}, []string{"E"},
